@@ -159,7 +159,22 @@ Section Machine.
     end.
   Definition measure (st : pstate) : nat := list_sum (map (fun f => weight f (ph st f)) files).
 
-  (* ---------- a fair deterministic schedule, for running the model ---------- *)
+  (* ---------- two fair deterministic schedules, for running the model ----------
+     reap_first = false: pipes are drained before waitpid results are taken (the usual order);
+     reap_first = true: a worker is reaped as soon as possible, before its pipe is read
+     (the order seen when something else keeps the pipe's write end open after the worker's death) *)
+  Definition pick_rest (reap_first : bool) (st : pstate) : option event :=
+    let rd := option_map ERead (find (fun g => is_open (ph st g)) files) in
+    let rp := option_map EReap (find (fun g => is_kid (ph st g)) files) in
+    if reap_first then match rp with Some e => Some e | None => rd end
+    else match rd with Some e => Some e | None => rp end.
+
+  Definition pick_rf (reap_first : bool) (st : pstate) : option event :=
+    match first_todo st with
+    | Some f => if Nat.ltb (nkids st) jobs then Some (EFork f) else pick_rest reap_first st
+    | None => pick_rest reap_first st
+    end.
+
   Definition pick (st : pstate) : option event :=
     match first_todo st with
     | Some f => if Nat.ltb (nkids st) jobs then Some (EFork f)
@@ -173,14 +188,14 @@ Section Machine.
               end
     end.
 
-  Fixpoint run_sched (fuel : nat) (st : pstate) : pstate :=
+  Fixpoint run_sched (reap_first : bool) (fuel : nat) (st : pstate) : pstate :=
     match fuel with
     | O => st
-    | S k => match pick st with
+    | S k => match pick_rf reap_first st with
              | None => st
              | Some e => match step st e with
                          | None => st
-                         | Some st' => run_sched k st'
+                         | Some st' => run_sched reap_first k st'
                          end
              end
     end.
